@@ -3,7 +3,7 @@
 import glob, json, os
 ROOT = os.path.dirname(os.path.dirname(os.path.abspath(__file__)))
 rows = []
-for d in sorted(glob.glob(os.path.join(ROOT, "seeded", "C*"))):
+for d in sorted(glob.glob(os.path.join(ROOT, "seeded", "*C[0-9][0-9]_*"))):
     m = json.load(open(os.path.join(d, "meta.json")))
     conf = m.get("confirmation", {})
     det = m.get("detection", {})
